@@ -278,7 +278,12 @@ def step (d : DState) (line : String) : DState × String :=
       | some pre, some t =>
         match mutate d p pre t cls args (afterWords line 3) with
         | none => (d, "n/a")
-        | some t' => (d, if verify bks d.price fuel d.db t' then "accept" else "reject")
+        | some t' =>
+          -- which stage refuses: `State.VerifyTx` (reads current, gas, declared transfers real, re-execution) or only
+          -- the xmodel admission of `State.DoTx` (written keys are declared reads)
+          let v1 := readsCurrent d.db t'.kin && decide (d.price * t'.limit ≤ t'.fee) && subMulti t'.cx t'.outs &&
+            reexecOK bks fuel d.db t'
+          (d, if !v1 then "reject-v" else if !writesRead t' then "reject-d" else "accept")
       | _, _ => (d, "n/a")
   | ["mine"] => (d, "ok")
   | ["replica"] => (d, "same")
